@@ -1,14 +1,20 @@
 (* C11 — A filter matches exactly the conjunction of its criteria, via every front-end.
-   Statements only; proofs are in Filter/MatchProofs.v, Filter/FrontendsProofs.v, Filter/FrontendsRoundtrip.v.
+   Statements only; proofs are in Filter/MatchProofs.v, Filter/MatchEngineProofs.v, Filter/FrontendsProofs.v,
+   Filter/FrontendsRoundtrip.v.
 
    Model: Filter/Match.v (`Filter::matches`, early returns) and Filter/Frontends.v (`from_json` after serde_json,
    `from_quick_xml_reader` after the element map, `filters_from_convert_format`, `EacFilter::from_str`, `to_json`)
    and Filter/FrontendsXml.v (the event loops of `filters_from_dlf` / `from_quick_xml_reader` over quick-xml events).
    [re : engine -> pattern -> text -> bool] is the regular-expression oracle (is_match of the three engines),
    [valid : engine -> pattern -> bool] says whether a pattern compiles.  Nothing is assumed about either.
+   Filter/MatchEngine.v types the engines as the code does: regex / regex::bytes answer a bool, fancy_regex (payload
+   pattern) answers Result<bool, Error> and can fail at match time depending on the message's text:
+   [fre : pattern -> text -> eans] (match / no match / engine error); [matches_total] is `matches` with its
+   `unwrap_or(false)`, in the result monad (Ok | Panic).
    The abstract filter of the property text, its meaning [aspec] and its renderings are in Filter/FrontendsSpec.v. *)
 From Coq Require Import List NArith Bool Permutation.
-From AdltV Require Import Filter.Match Filter.MatchProofs Filter.Frontends Filter.FrontendsSpec
+From AdltV Require Import Base.Res Filter.Match Filter.MatchProofs Filter.MatchEngine Filter.MatchEngineProofs
+  Filter.Frontends Filter.FrontendsSpec
   Filter.FrontendsProofs Filter.FrontendsRoundtrip Filter.FrontendsXml Filter.FrontendsXmlProofs.
 Import ListNotations.
 Open Scope N_scope.
@@ -159,6 +165,50 @@ Section Statements.
     exists f. split; [|split; [exact Hpat|split; [exact Hic|reflexivity]]].
     exact (json_roundtrip_eq valid f (from_json_shape valid _ f Hl) Hp).
   Qed.
+  (* ---- the engines as they are typed: the payload pattern's engine may fail at match time (wave 7).
+     `Filter::matches` is TOTAL for every answer of every engine - no panic whatever the message's payload makes the
+     backtracking engine do - and it is the specification with "engine error" read as "the pattern criterion does not
+     hold"; the negation flag applies afterwards.  [re_collapse re fre] is the two-valued oracle of C11_matches_spec
+     that this amounts to: C11_matches_spec and all theorems above hold for it. *)
+  Variable fre : pattern -> text -> eans.
+
+  Theorem C11_matches_total f m :
+    matches_total re fre f m = Ok (matches (re_collapse re fre) f m) /\
+    matches_total re fre f m = Ok (f_enabled f && xorb (f_negate f) (criteria_hold (re_collapse re fre) f m)) /\
+    (forall c t, payload_holds (re_collapse re fre) c t =
+                 match c with
+                 | PRegex p => match fre p t with EMatch => true | ENoMatch => false | EError => false end
+                 | PLiteralCi s => re ECi s t
+                 | PLiteral s => substr s t
+                 end).
+  Proof.
+    split; [exact (matches_total_is_matches re fre f m)|].
+    split; [exact (matches_total_spec re fre f m)|].
+    intros c t. rewrite (payload_holds_collapse re fre c t). destruct c; reflexivity.
+  Qed.
+
+  (* the error case spelled out: the engine fails on the message's text -> the criteria do not hold -> a plain filter
+     does not match the message, a negated filter matches it (and a disabled one matches nothing) *)
+  Theorem C11_engine_error_is_criterion_fails f m p t :
+    f_payload_regex f = Some p -> m_text m = Some t -> fre p t = EError ->
+    criteria_hold (re_collapse re fre) f m = false /\
+    matches_total re fre f m = Ok (f_enabled f && f_negate f).
+  Proof. exact (engine_error_is_criterion_fails re fre f m p t). Qed.
+
+  (* the variant that unwraps the engine's Result (`is_match(..).unwrap()`): indistinguishable from the code as long as
+     the engine does not fail on the message at hand ... *)
+  Theorem C11_unwrap_variant_agrees_without_error f m :
+    (forall p t, f_payload_regex f = Some p -> m_text m = Some t -> fre p t <> EError) ->
+    matches_unwrapping re fre f m = matches_total re fre f m.
+  Proof. exact (unwrapping_agrees_without_error re fre f m). Qed.
+
+  (* ... and refuted by ANY error value of the engine: the filter {payloadRegex: p} (negated or not) panics on a
+     message with the text t, where the code answers its negation flag *)
+  Theorem C11_unwrap_variant_refuted p t negate :
+    fre p t = EError ->
+    matches_unwrapping re fre (filter_payload_regex p negate) (msg_with_text t) = Panic site_regex_unwrap /\
+    matches_total re fre (filter_payload_regex p negate) (msg_with_text t) = Ok negate.
+  Proof. exact (unwrapping_refuted re fre p t negate). Qed.
 End Statements.
 
 (* ---------------------------------------------------------------- non-vacuity and kept witnesses *)
@@ -254,6 +304,22 @@ Proof.
   split; [vm_compute; left; reflexivity|]. split; [vm_compute; reflexivity|]. split; vm_compute; reflexivity.
 Qed.
 
+(* wave 7: an engine that gives up on the text "abab..ab" (40 times, no 'c' behind it) for the pattern
+   (?i)(a|b|ab)*(?=c) and answers "no match" elsewhere: the filter {"payloadRegex": ...} does not match that message,
+   its negation matches it, neither panics; the unwrapping variant panics on both *)
+Definition ex_evil_pat : pattern := [40; 63; 105; 41; 40; 97; 124; 98; 124; 97; 98; 41; 42; 40; 63; 61; 99; 41].
+Definition ex_evil_text : text := concat (repeat [97; 98] 40).
+Definition ex_fre : pattern -> text -> eans :=
+  fun p t => if text_eqb p ex_evil_pat && text_eqb t ex_evil_text then EError else ENoMatch.
+Example C11_witness_engine_error :
+  matches_total ex_re ex_fre (filter_payload_regex ex_evil_pat false) (msg_with_text ex_evil_text) = Ok false /\
+  matches_total ex_re ex_fre (filter_payload_regex ex_evil_pat true) (msg_with_text ex_evil_text) = Ok true /\
+  matches_total ex_re ex_fre (filter_payload_regex ex_evil_pat true) (msg_with_text [97; 98]) = Ok true /\
+  matches_unwrapping ex_re ex_fre (filter_payload_regex ex_evil_pat false) (msg_with_text ex_evil_text) = Panic site_regex_unwrap /\
+  matches_unwrapping ex_re ex_fre (filter_payload_regex ex_evil_pat true) (msg_with_text ex_evil_text) = Panic site_regex_unwrap /\
+  matches_unwrapping ex_re ex_fre (filter_payload_regex ex_evil_pat false) (msg_with_text [97; 98]) = Ok false.
+Proof. repeat split; vm_compute; reflexivity. Qed.
+
 Print Assumptions C11_matches_spec.
 Print Assumptions C11_no_ext_header_fails_id_type_level.
 Print Assumptions C11_lifecycle_membership.
@@ -274,3 +340,8 @@ Print Assumptions C11_to_json_payload_regex_inverse.
 Print Assumptions C11_json_payload_regex_text_kept.
 Print Assumptions C11_json_roundtrip_inline_flag.
 Print Assumptions C11_witness_inline_flag_is_serialised.
+Print Assumptions C11_matches_total.
+Print Assumptions C11_engine_error_is_criterion_fails.
+Print Assumptions C11_unwrap_variant_agrees_without_error.
+Print Assumptions C11_unwrap_variant_refuted.
+Print Assumptions C11_witness_engine_error.
